@@ -405,3 +405,59 @@ def run(ck):
     for m, sites in sorted(per_field.items()):
         ck.ob('C17.decode', 'C17.decode/once/' + m.replace('ephemeralnet::protocol::', ''), len(sites) == 1, dec.loc(sites[-1]),
               '%s is assigned exactly once in decode_manifest, from the bytes read (%d assignment(s))' % (m.replace('ephemeralnet::protocol::', ''), len(sites)))
+
+    # ---- the decoder refuses no expiry the encoder can emit (N1) ----------------------------------------------------------------
+    # encode_manifest writes duration_cast<seconds>(expires_at.time_since_epoch()).count() as a 64-bit word: any value in
+    # [-K, K], K = floor((2^63-1)/10^9) (system_clock counts nanoseconds here), negative ones (before 1970) in two's complement.
+    # Every throw of decode_manifest that is guarded by the decoded expiry must be impossible for such a value.
+    from sa.absint2 import Analyzer as _An
+    from sa.lin import Lin as _Lin
+    K = (2 ** 63 - 1) // 10 ** 9
+    exp_sites = per_field.get('ephemeralnet::protocol::Manifest::expires_at') or []
+    if not exp_sites:
+        raise AnalysisBroken('decode_manifest no longer assigns Manifest::expires_at')
+    cand = {}
+    for j in dec.walk(exp_sites[0]):
+        nd_ = dec.nodes[j]
+        if nd_['k'] == 'DeclRefExpr' and nd_.get('dk') == 'Var' and not nd_.get('g'):
+            for v_ in dec.walk():
+                if dec.nodes[v_]['k'] == 'VarDecl' and dec.nodes[v_].get('d') == nd_['d']:
+                    cand[nd_['d']] = dec.nodes[v_]
+    hits = []
+
+    def _throw_hook(fn_, n_, s_, fr_):
+        if fn_ is not dec:
+            return
+        guard = None
+        for a_ in fn_.ancestors(n_):
+            if fn_.nodes[a_]['k'] == 'IfStmt':
+                guard = fn_.nodes[a_]['cond']
+                break
+        if guard is None:
+            return
+        ds_ = {fn_.nodes[j]['d'] for j in fn_.walk(guard) if fn_.nodes[j]['k'] == 'DeclRefExpr' and fn_.nodes[j].get('d') in cand}
+        for d_ in ds_:
+            hits.append((n_, d_, s_.env.get(('v', fr_.id, d_)), s_.cons.copy()))
+    an17 = _An(P, inline=lambda q: q.startswith('ephemeralnet::protocol::'))
+    an17.throw_hook = _throw_hook
+    an17.run(dec)
+    refused = None
+    for n_, d_, x_, cons_ in hits:
+        it_ = int_type((cand[d_].get('t') or '').replace('const ', ''))
+        if not isinstance(x_, _Lin) or it_ is None:
+            refused = (n_, 'the decoded expiry is not tracked as a number at this throw')
+            break
+        signed = it_[1] if len(it_) > 1 else True
+        ranges = [(-K, K)] if signed else [(0, K), (2 ** 64 - K, 2 ** 64 - 1)]
+        for lo, hi in ranges:
+            c2 = cons_.copy()
+            c2.add_le(_Lin.const(lo) - x_)
+            c2.add_le(x_ - hi)
+            if not c2.is_unsat():
+                refused = (n_, 'a value in [%d, %d] of the %s expiry word reaches this throw' % (lo, hi, 'signed' if signed else 'unsigned'))
+                break
+        if refused:
+            break
+    ck.ob('C17.decode', 'C17.decode/expiry-accepts-every-emitted-value', refused is None, dec.loc(refused[0]) if refused else dec.loc(exp_sites[0]),
+          'no expiry that encode_manifest can emit (|seconds| <= %d, dates before 1970 included) is refused by decode_manifest '
+          '(%d guarded throw state(s) examined)%s' % (K, len(hits), '' if refused is None else ' — ' + refused[1]))
